@@ -112,6 +112,31 @@ type NumberType interface {
 	int64 | float64
 }
 
+// kindsAgree reports whether a value of kind from denotes a value of kind to as it is: the same kind, any integer
+// width for an integer, any integer or float width for a float. reflect's CanConvert alone also allows conversions that
+// reinterpret the value: float to integer (truncation) and integer to string (the rune with that code).
+func kindsAgree(from reflect.Kind, to reflect.Kind) bool {
+	isInt := func(k reflect.Kind) bool {
+		switch k {
+		case reflect.Int, reflect.Int8, reflect.Int16, reflect.Int32, reflect.Int64,
+			reflect.Uint, reflect.Uint8, reflect.Uint16, reflect.Uint32, reflect.Uint64:
+			return true
+		}
+		return false
+	}
+	isFloat := func(k reflect.Kind) bool {
+		return k == reflect.Float32 || k == reflect.Float64
+	}
+	switch {
+	case isInt(to):
+		return isInt(from)
+	case isFloat(to):
+		return isInt(from) || isFloat(from)
+	default:
+		return from == to
+	}
+}
+
 func saveConvertTo(value any, to reflect.Type) (any, error) {
 	var recoveredError error
 	var result any
